@@ -167,11 +167,21 @@ func (g *Gen) derive(f int) int {
 	if s.err || len(s.names) == 0 {
 		return f
 	}
-	k := g.rng.Intn(4)
+	k := g.rng.Intn(6)
 	if s.n > 250 && (k == 0 || k == 3) {
 		k = 1 + g.rng.Intn(2) // sort / distinct of a large frame are only judged with a row-number column
 	}
 	switch k {
+	case 4: // drop a column that is not the last one: the remaining columns move to new positions
+		if len(s.names) >= 2 {
+			return g.do(Step{Op: "Drop", Recv: f, Cols: bsList([]string{s.names[g.rng.Intn(len(s.names)-1)]})})
+		}
+		return f
+	case 5: // the same columns in another order
+		if len(s.names) >= 2 {
+			return g.do(Step{Op: "Select", Recv: f, Cols: bsList(g.perm(s.names))})
+		}
+		return f
 	case 0:
 		c := g.oneOf(s.names)
 		return g.do(Step{Op: "Sort", Recv: f, Orders: []Order{{Col: toBS(c), Rev: g.rng.Intn(2) == 0, NullLast: g.rng.Intn(2) == 0}}})
